@@ -18,9 +18,15 @@ CLAIMED = {
  "C04": ("proptest-generated boundary shapes, extreme magnitudes, limits and ill-formed dimensions under catch_unwind",
          "Exploration: 150k (quick) / 4M (thorough) boundary-shape problems (m=0, no/empty/singleton cones, zero A/P, duplicates, 1e-324..1e300 magnitudes, infeasible/unbounded) x max_iter/time_limit grids must return a terminal status without panicking, within max_iter, with 0 iterations at time_limit=0; ill-formed dimensions must hit the documented construction panic.",
          SOLVE_NOTE + " Hangs are bounded by max_iter; the watchdog yields exit 2, never a violation.", "DESIGN.md §4 C04"),
+ "C05": ("proptest-generated base problems and chains of semantics-preserving transformations with inverse maps (metamorphic), plus bitwise differential between repeated / concurrent runs",
+         "Exploration: 6k (quick) / 200k (thorough) well-posed base problems, each with 1-4 variants built from variable/cone/row permutations, nonnegative splits, singleton-cone rotation, P form, objective scaling, presolve/equilibration toggles, backend and thread count; no two variants may fall in different verdict classes, mapped-back objectives must agree within gap tolerance plus an explicit weak-duality remainder, and identical calls (two fresh solvers, solve() twice, all variants concurrently on OS threads) must be bit-identical. Lost verdicts gate through a 0.5% rate.",
+         SOLVE_NOTE + " Thread schedules are whatever the OS produces (no controlled scheduler).", "DESIGN.md §4 C05"),
  "C06": ("proptest-generated well-posed family G under default settings; distributional gate (binomial margin) on the Solved fraction and a frozen p95 iteration envelope",
          "Exploration (statistical): 36k (quick) / 480k (thorough) planted strictly-feasible, full-column-rank instances over all cone mixtures are solved with default settings; alarm iff the Solved fraction is below 99.5% by more than 4.5 binomial standard deviations or p95(iterations) exceeds the frozen envelope of 27 (baseline on the repaired tree: 99.72% Solved, p95=18). Evidence lists per-status counts, percentiles and the worst cone classes; the replay file holds the non-solved instances.",
          SOLVE_NOTE + " The gate cannot see failures confined to <0.3% of the family.", "DESIGN.md §4 C06"),
+ "C07": ("proptest-generated problems x line-search settings; invariant over the observed iterate history + bitwise prefix determinism against max_iter=k runs",
+         "Exploration: 25k (quick) / 600k (thorough) problems (feasible, infeasible, all cone mixtures, both scaling strategies, strategy switches and rollbacks) are solved with the per-iteration observer: tau,kappa>0, s in K, z in K* at every loop head, steps in (0,1]; then for k=0..min(K,10) a fresh run with max_iter=k must stop bit-identically at the long run's k-th iterate and return exactly its un-scaling (~10 extra solves per case).",
+         SOLVE_NOTE + " Iterates are read through the observer hook in internal coordinates; presolve is off so dimensions match.", "DESIGN.md §4 C07"),
  "C09": ("proptest-generated infinite-bound placements and set_infinity histories; bitwise differential against hand-reduced / capped problems",
          "Exploration: planted problems with B, B(1+1e-3), 1e10 B, f64::MAX, +inf or B(1-1e-6) on random rows of nonnegative, singleton SOC/PSD and other cones, presolve on/off, module bound in {1e5,1e10,1e20,1e25} set through histories and changed again after construction; checks the dropped set, z=0/s=B, lengths, internal size, and bitwise equality with the problem reduced by hand and with capped entries replaced by B.",
          SOLVE_NOTE + " Single-threaded because the check owns the module-level infinity value (restored on exit).", "DESIGN.md §4 C09"),
